@@ -3,23 +3,27 @@ by the real code; TLC judges (input view, step list, output view)."""
 import json
 
 from harness import core, project as P
-from harness.common import pmap, build, score_abs, via
+from harness.common import pmap, build, score_abs, via4, canonical_in, perturb_returned_defaults
 
 core.import_scoda()
-from scoda.misc.util import get_default_step_sizes  # noqa: E402
+
+# the default grid that follows from the settings (PPQN 24: quarter..16th notes and their triplets), spelled out
+DEFAULT_STEPS = [24, 12, 6, 16, 8, 4]
 
 
 def execute(case):
     idx, score, steps = case
-    line = {"steps": steps, "in": [], "out": [], "raised": "", "case": {"score": score, "steps": steps}}
+    line = {"steps": steps, "in": [], "out": [], "outRel": [], "raised": "", "case": {"score": score, "steps": steps}}
     try:
-        seq = build(score, via(idx))
-        line["in"] = P.raw_abs(seq)
-        if steps == get_default_step_sizes() and idx % 2:
+        seq = build(score, via4(idx))
+        line["in"] = canonical_in(seq, score)
+        perturb_returned_defaults()
+        if steps == list(DEFAULT_STEPS) and idx % 2:
             seq.quantise()            # the default grid through the default argument
         else:
             seq.quantise(list(steps))
         line["out"] = P.raw_abs(seq)
+        line["outRel"] = P.raw_rel(seq)            # both views are read after the operation: they must agree
     except Exception as e:
         line["raised"] = f"{type(e).__name__}: {e}"
     return line
@@ -62,14 +66,14 @@ def run(ctx):
                 cases.append((len(cases), sc, st))
         if not ctx.thorough:   # quick: every score with two of the six step lists (rotating), all six for 1/4 of them
             cases = [c for c in cases if (c[0] // 6) % 4 == 0 or (c[0] % 6) in ((c[0] // 6) % 6, (c[0] // 6 + 3) % 6)]
-        steplists = g["steplists"] + [get_default_step_sizes(), [2, 3], [12], [5, 7], [1]]
+        steplists = g["steplists"] + [list(DEFAULT_STEPS), [2, 3], [12], [5, 7], [1]]
         for _ in range(60000 if ctx.thorough else 8000):
             sc = random_score(ctx.rng, 12 if ctx.rng.random() < .5 else 5, ctx.rng.choice([20, 60, 200]))
             cases.append((len(cases), sc, ctx.rng.choice(steplists)))
     if ctx.fixtures and not ctx.replay:      # slices of the repository's fixtures, as loaded (unquantised)
         from harness import fixtures
         for sc in fixtures.slices("raw"):
-            for st in ([get_default_step_sizes(), [12], [4, 6], [3]]):
+            for st in ([list(DEFAULT_STEPS), [12], [4, 6], [3]]):
                 cases.append((len(cases), {k: sc[k] for k in ("notes", "extras", "dur")}, st))
     obs = pmap(execute, cases, chunk=400)
     for i, o in enumerate(obs):
